@@ -106,6 +106,20 @@ CHECKS["C02"] = dict(
          "values of each type (the rows do not depend on values); body value conformance is C07.",
     note=TRUST + S3NOTE, technique="static analysis: go/types implementer sets + AST decompilation of response writers + table comparison with spec oracle", design="§4 C02")
 
+CHECKS["C09"] = dict(
+    text="Sibling cross-check of the two independently generated implementations of the request wire format: every client method and the matching server parser are decompiled; rows must "
+         "agree on (location, name) and on the struct field (types.Var identity), the URL must follow the template, client formatter and server converter must be an inverse pair with "
+         "equal bit size/layout, optional <=> guarded on the client and not required on the server, JSON/raw body handled symmetrically, path values escaped. This is the codec-level "
+         "necessary condition of the round trip for all parameter values; validity under an external validator and escaping of runtime strings are NOT decided.",
+    note=TRUST + S3NOTE + " strconv/time Format and Parse round-trip for equal bit size/layout (library contract).",
+    technique="static analysis: AST decompilation of client and server + table/inverse-pair cross-check", design="§4 C09")
+CHECKS["C10"] = dict(
+    text="Every client status switch is decompiled and cross-checked with the server's response writers (C02 rows) and the spec oracle: case constants = documented statuses, arm type "
+         "identical to the server type writing that status for this operation, typed default with Code iff documented (else error), header rows equal (key, field, required) with the "
+         "client parser inverse to the server formatter and the request-parsing typestate obligations, body decoded/handed over symmetrically. Covers all statuses and response values "
+         "at the table level; equality of body values is C06/C08.",
+    note=TRUST + S3NOTE, technique="static analysis: AST decompilation of client response arms + typestate + cross-check with server writer rows", design="§4 C10")
+
 NA_REASON = {}
 DEFAULT_NA = "not claimed yet: static checker for this property is still under construction (design in DESIGN.md §4)"
 
